@@ -480,3 +480,19 @@ M("C11", "pump-modes-through-a-speed-table", "automation/pump.py", "        retu
 M("C12", "scan-skips-the-heater-output", "automation/async_facade.py", "            for output in self._spa.struct.all_outputs\n        }", "            for output in self._spa.struct.all_outputs\n            if not output.startswith(\"OutHtr\")\n        }", rule="R1")
 M("C15", "protocol-default-queue-object", "driver/async_udp_protocol.py", "    def __init__(self, on_connection_lost, destination) -> None:\n        self.transport = None\n        self._on_connection_lost = on_connection_lost\n        self._destination = destination\n\n        self._sequence_counter_protocol = 0\n        self._sequence_counter_command = 191\n        self._queue = AsyncPeekableQueue()", "    def __init__(self, on_connection_lost, destination, queue=AsyncPeekableQueue()) -> None:\n        self.transport = None\n        self._on_connection_lost = on_connection_lost\n        self._destination = destination\n\n        self._sequence_counter_protocol = 0\n        self._sequence_counter_command = 191\n        self._queue = queue", rule="R11")
 M("C20", "channel-step-budget-from-the-timeout", "driver/protocol/getchannel.py", "            retry_count=GeckoConfig.PROTOCOL_RETRY_COUNT,", "            retry_count=GeckoConfig.PROTOCOL_TIMEOUT_IN_SECONDS,", rule="R5")
+
+# --------------------------------------------------------------------------- round 16 rules
+M("C02", "celsius-told-by-raw-index", "driver/accessor.py", "    def _set_value(self, temp):\n        \"\"\"Set the temperature\"\"\"\n        units = self.struct.accessors[GeckoConstants.KEY_TEMP_UNITS].value\n        if units == \"C\":", "    def _set_value(self, temp):\n        \"\"\"Set the temperature\"\"\"\n        units = \"C\" if self.struct.accessors[GeckoConstants.KEY_TEMP_UNITS].raw_value == 1 else \"F\"\n        if units == \"C\":", rule="R16")
+M("C09", "driver-reads-the-address-once", "async_spa_manager.py", "        _LOGGER.debug(\"SpaMan sequence pump started\")\n\n        try:\n            while True:\n\n                if (\n                    self.spa_state == GeckoSpaState.IDLE\n                    and self._spa_descriptors is None\n                ):\n                    await self.async_locate_spas(self._spa_address)", "        _LOGGER.debug(\"SpaMan sequence pump started\")\n        address = self._spa_address\n\n        try:\n            while True:\n\n                if (\n                    self.spa_state == GeckoSpaState.IDLE\n                    and self._spa_descriptors is None\n                ):\n                    await self.async_locate_spas(address)", rule="R10")
+M("C10", "rf-fault-text-looked-up-past-a-table", "spa_state.py", "        elif state == GeckoSpaState.ERROR_RF_FAULT:", "        elif state == GeckoSpaState.ERROR_RF_FAULT and (\"Lost contact\",)[state.value - GeckoSpaState.ERROR_SPA_NOT_FOUND.value]:", rule="R10")
+M("C11", "observable-repr-names-bound-methods", "driver/observable.py", "        return f\"{self.__class__.__name__} watched by={self._observers!r}\"", "        return f\"{self.__class__.__name__} watched by={[o.__self__.__class__.__name__ for o in self._observers]!r}\"", rule="R12")
+M("C11", "observable-repr-names-callables-twin", "driver/observable.py", "        return f\"{self.__class__.__name__} watched by={self._observers!r}\"", "        return f\"{self.__class__.__name__} watched by={[getattr(o, '__name__', repr(o)) for o in self._observers]!r}\"", expect="silent")
+M("C12", "outli-not-scanned-on-one-config", "driver/packs/inxm-cfg-1.py", "            \"Out7A\",\n            \"OutLi\",\n            \"LightActivationOrder\",", "            \"Out7A\",\n            \"LightActivationOrder\",", rule="R13")
+M("C13", "single-speed-pumps-lose-lo-in-place", "automation/async_facade.py", "        self._blowers = [", "        for pump in self._pumps:\n            if f\"{pump.key}L\" not in actual_connections.values() and \"LO\" in pump.modes:\n                pump.modes.remove(\"LO\")\n        self._blowers = [", rule="R13")
+M("C13", "config-version-from-the-log-version", "async_spa.py", "        self.config_version = config_file_handler.config_version", "        self.config_version = config_file_handler.log_version", rule="R5")
+M("C14", "blocking-structure-skips-a-repeated-write", "driver/spastruct.py", "        # Delegate this\n", "        # Delegate this\n        if getattr(self, \"_last_write\", None) == (pos, length, newvalue):\n            return\n        self._last_write = (pos, length, newvalue)\n", rule="R13")
+M("C17", "range-filter-ends-a-byte-early", "driver/accessor.py", "        intersection_end = min(offset + len, self.pos + self.length)", "        intersection_end = min(offset + len - 1, self.pos + self.length)", rule="R9")
+M("C18", "older-config-table-stands-in", "async_spa.py", "        try:\n            GeckoConfigStruct = importlib.import_module(\n                config_module_name\n            ).GeckoConfigStruct", "        try:\n            importlib.import_module(config_module_name)\n        except ModuleNotFoundError:\n            config_module_name = f\"geckolib.driver.packs.{plateform_key}-cfg-{self.config_version - 1}\"\n        try:\n            GeckoConfigStruct = importlib.import_module(\n                config_module_name\n            ).GeckoConfigStruct", rule="R8")
+M("C20", "receive-step-guards-only-the-socket-read", "driver/udp_socket.py", "                self.dispatch_recevied_data(received_bytes, remote_end)\n            except socket.timeout:\n                return\n            except OSError as e:\n                _LOGGER.debug(\"OS Exception %s during socket receive\", e)\n                return\n            except Exception:\n                _LOGGER.exception(\"Exception during receive processing\")\n                return\n            finally:\n                pass\n", "            except socket.timeout:\n                return\n            except OSError as e:\n                _LOGGER.debug(\"OS Exception %s during socket receive\", e)\n                return\n            self.dispatch_recevied_data(received_bytes, remote_end)\n", rule="R4")
+M("C20", "receive-step-guard-moved-to-the-thread-loop-twin", "driver/udp_socket.py", "            self._process_received_data()\n            # Do loop for timeout/retry", "            try:\n                self._process_received_data()\n            except Exception:\n                _LOGGER.exception(\"Exception during receive processing\")\n            # Do loop for timeout/retry", expect="silent")
+M("C20", "handler-loop-unguarded-again", "driver/udp_socket.py", "                try:\n                    handler.loop(self)\n                except Exception:\n                    _LOGGER.exception(\"Exception during handler loop\")\n", "                handler.loop(self)\n", rule="R4")
